@@ -401,6 +401,147 @@ macro_rules! user_entry {
     };
 }
 
+// ------------------------------------------------------------------------------------------------
+// per-type metadata that the pointer functions depend on: the collector hands `PtrMeta::from_thin`
+// and `AllocMeta::layout` the `&'static M` of the (type, metadata) pair the value was allocated
+// with. Two pointer-metadata types: the length is the per-type number alone (zero-sized per-value
+// metadata), or the per-type number times a per-value u8. Several `TypeMeta` instantiations for the
+// same value type, i.e. several vtables that differ in nothing but the metadata pointer.
+
+pub struct Stride {
+    pub n: usize,
+}
+macro_rules! strides {
+    ($( $name:ident = $n:literal ),*) => {
+        $(
+            pub struct $name;
+            impl gc_arena::meta::TypeMeta for $name {
+                type TypeMetadata = Stride;
+                const TYPE_METADATA: &'static Stride = &Stride { n: $n };
+            }
+        )*
+    };
+}
+strides!(Fix0 = 0, Fix3 = 3, Fix7 = 7, Mul4 = 4, Mul1 = 1);
+
+pub struct TypeLenMeta;
+impl<E> gc_arena::meta::PtrMeta<[E], Stride> for TypeLenMeta {
+    type PtrMetadata = ();
+    type Thin = ();
+    fn to_thin(_: &'static Stride, fat: *const [E]) -> *const () {
+        fat as *const ()
+    }
+    fn from_thin(tm: &'static Stride, thin: *const (), _: ()) -> *const [E] {
+        std::ptr::slice_from_raw_parts(thin as *const E, tm.n)
+    }
+}
+impl<E> gc_arena::meta::AllocMeta<[E], Stride> for TypeLenMeta {
+    fn layout(tm: &'static Stride, _: ()) -> Option<std::alloc::Layout> {
+        std::alloc::Layout::array::<E>(tm.n).ok()
+    }
+}
+pub struct MulLenMeta;
+impl<E> gc_arena::meta::PtrMeta<[E], Stride> for MulLenMeta {
+    type PtrMetadata = u8;
+    type Thin = ();
+    fn to_thin(_: &'static Stride, fat: *const [E]) -> *const () {
+        fat as *const ()
+    }
+    fn from_thin(tm: &'static Stride, thin: *const (), m: u8) -> *const [E] {
+        std::ptr::slice_from_raw_parts(thin as *const E, tm.n * m as usize)
+    }
+}
+impl<E> gc_arena::meta::AllocMeta<[E], Stride> for MulLenMeta {
+    fn layout(tm: &'static Stride, m: u8) -> Option<std::alloc::Layout> {
+        std::alloc::Layout::array::<E>(tm.n * m as usize).ok()
+    }
+}
+
+/// How a (pointer metadata type, type metadata) pair turns the requested length into per-value
+/// metadata and the real length.
+pub trait TmLen<TM: gc_arena::meta::TypeMeta<TypeMetadata = Stride>>: gc_arena::meta::PtrMeta<[u8], Stride> {
+    fn split(len: usize) -> (<Self as gc_arena::meta::PtrMeta<[u8], Stride>>::PtrMetadata, usize);
+}
+impl<TM: gc_arena::meta::TypeMeta<TypeMetadata = Stride>> TmLen<TM> for TypeLenMeta {
+    fn split(_len: usize) -> ((), usize) {
+        ((), TM::TYPE_METADATA.n)
+    }
+}
+impl<TM: gc_arena::meta::TypeMeta<TypeMetadata = Stride>> TmLen<TM> for MulLenMeta {
+    fn split(len: usize) -> (u8, usize) {
+        let n = TM::TYPE_METADATA.n;
+        let m = len / n;
+        (m as u8, m * n)
+    }
+}
+
+fn make_tm<'gc, E, TM, P>(mc: &Mutation<'gc>, len: usize, seed: u64, zero: E) -> Made<'gc>
+where
+    E: 'static + Copy,
+    TM: gc_arena::meta::TypeMeta<TypeMetadata = Stride>,
+    P: TmLen<TM> + gc_arena::meta::AllocMeta<[Static<E>], Stride, Thin = ()> + 'static,
+    P: gc_arena::meta::PtrMeta<[Static<E>], Stride, PtrMetadata = <P as gc_arena::meta::PtrMeta<[u8], Stride>>::PtrMetadata>,
+{
+    let (pm, len) = <P as TmLen<TM>>::split(len);
+    let g: gc_arena::GcFat<'gc, [Static<E>], Stride, P> = {
+        let _t = crate::seam::track();
+        // SAFETY: TypeLenMeta / MulLenMeta are correct PtrMeta / AllocMeta impls for [E] with Stride
+        unsafe {
+            let mut b = gc_arena::GcBuilder::<[Static<E>], Stride, P>::new_with_type_and_ptr_meta::<TM>(pm);
+            let p = b.as_ptr() as *mut Static<E>;
+            for i in 0..len {
+                p.add(i).write(Static(zero));
+            }
+            b.assume_init(mc)
+        }
+    };
+    let p = Gc::as_ptr(g) as *const E;
+    let (size, align) = (size_of::<E>() * len, align_of::<E>());
+    unsafe { fill(p as *mut u8, size, seed, false) };
+    let mut roundtrip = None;
+    if g.len() != len {
+        roundtrip = Some(format!("allocated with length {len} (from per-type metadata), reads length {}", g.len()));
+    }
+    let thin: gc_arena::GcThin<'gc, [Static<E>], Stride, P> = Gc::as_thin(g);
+    let fat = Gc::as_fat(thin);
+    if fat.len() != len || thin.len() != len || Gc::as_ptr(fat) as *const E != p {
+        roundtrip = Some(format!("as_thin -> as_fat (length from per-type metadata): length {} / {}, expected {len}, address equal {}", thin.len(), fat.len(), Gc::as_ptr(fat) as *const E == p));
+    }
+    let tp = Gc::as_thin_ptr(thin);
+    let back: gc_arena::GcThin<'gc, [Static<E>], Stride, P> = unsafe { Gc::from_thin_ptr_with_kind(tp) };
+    if tp as usize != p as usize || back.len() != len || Gc::as_thin_ref(thin) as *const () as usize != p as usize {
+        roundtrip = Some("as_thin_ptr / as_thin_ref / from_thin_ptr_with_kind do not give back the same pointer".to_string());
+    }
+    Made { ptr: Gc::erase(g), addr: p as usize, size, align, roundtrip }
+}
+fn check_tm<'gc, E, TM, P>(ptr: Gc<'gc, ()>, len: usize, seed: u64) -> Result<(), String>
+where
+    E: 'static,
+    TM: gc_arena::meta::TypeMeta<TypeMetadata = Stride>,
+    P: TmLen<TM> + gc_arena::meta::PtrMeta<[Static<E>], Stride, Thin = ()> + 'static,
+{
+    let (_, len) = <P as TmLen<TM>>::split(len);
+    let thin: gc_arena::GcThin<'gc, [Static<E>], Stride, P> = unsafe { Gc::from_thin_ptr_with_kind(Gc::as_ptr(ptr)) };
+    let fat = Gc::as_fat(thin);
+    if fat.len() != len {
+        return Err(format!("re-fattened slice (length from per-type metadata) has length {}, allocated with {len}", fat.len()));
+    }
+    if (Gc::as_ptr(fat) as *const E as usize) % align_of::<E>() != 0 {
+        return Err(format!("address is not aligned to {}", align_of::<E>()));
+    }
+    unsafe { verify(Gc::as_ptr(fat) as *const u8, size_of::<E>() * len, seed, false) }
+}
+macro_rules! tm_entry {
+    ($name:literal, $e:ty, $zero:expr, $tm:ty, $p:ty) => {
+        LayVt {
+            name: $name,
+            class: LayClass::Slice,
+            make: |mc, len, seed| make_tm::<$e, $tm, $p>(mc, len, seed, $zero),
+            check: |p, len, seed| check_tm::<$e, $tm, $p>(p, len, seed),
+        }
+    };
+}
+
 #[derive(Clone, Copy)]
 #[repr(align(64))]
 pub struct Z64;
@@ -437,6 +578,10 @@ pub static LAYS: &[LayVt] = &[
     user_entry!("user<u8>[u16]", u16, 0, u8), user_entry!("user<u16>[u64]", u64, 0, u16), user_entry!("user<u32>[u8]", u8, 0, u32),
     user_entry!("user<u32>[u128]", u128, 0, u32), user_entry!("user<Rec12>[u32]", u32, 0, Rec12), user_entry!("user<Len32>[u8]", u8, 0, Len32),
     user_entry!("user<u8>[A64]", A64<64>, A64([0; 64]), u8),
+    // the length comes (wholly or partly) from per-type metadata: same value type, several vtables
+    tm_entry!("tm<Fix3>[u8]", u8, 0, Fix3, TypeLenMeta), tm_entry!("tm<Fix7>[u8]", u8, 0, Fix7, TypeLenMeta), tm_entry!("tm<Fix0>[u8]", u8, 0, Fix0, TypeLenMeta),
+    tm_entry!("tm<Fix3>[u64]", u64, 0, Fix3, TypeLenMeta), tm_entry!("tm<Fix7>[A64]", A64<64>, A64([0; 64]), Fix7, TypeLenMeta),
+    tm_entry!("tm<Mul4,u8>[u16]", u16, 0, Mul4, MulLenMeta), tm_entry!("tm<Mul1,u8>[u16]", u16, 0, Mul1, MulLenMeta), tm_entry!("tm<Mul4,u8>[A32]", A32<32>, A32([0; 32]), Mul4, MulLenMeta),
 ];
 
 pub const MAX_LEN: usize = 17;
